@@ -207,6 +207,7 @@ package hamt
 //@ at return ghost lastKey(n) = key
 //@ ensures looks-up-this-key: lastKey(n) == key
 //@ at call (*hamt._UnixFSHAMTShard).lookup#1 assert walks-with-this-key-from-the-first-hash-bit: callee_key == key && callee_hv.consumed == 0
+//@ at call hamt.hash#1 assert hashes-the-key-as-given: str(callee_val) == key
 //@ func (*hamt._UnixFSHAMTShard).LookupBySegment
 //@ prop C02 C03 C12 C15
 //@ ensures the-stores-error-is-returned-as-is: !old(loadFailed) && loadFailed ==> err == lastLoadErr
@@ -215,3 +216,13 @@ package hamt
 //@ prop C02 C03 C12 C15
 //@ ensures the-stores-error-is-returned-as-is: !old(loadFailed) && loadFailed ==> err == lastLoadErr
 //@ ensures key-node-is-looked-up-by-its-string: err == nil ==> lastKey(n) == nodeString(key)
+
+// C02 / C08: the reader looks a name up under the murmur3 hash of exactly that name (the same
+// hashOf the builder files it under), starting from the first hash bit, through every entry point.
+//@ func hamt.hash
+//@ prop C02 C08
+//@ ensures key-hash-is-the-hash-of-the-name: str(result) == hashOf(str(val))
+//@ func (*hamt._UnixFSHAMTShard).Lookup
+//@ prop C02 C15
+//@ at call hamt.hash#1 assert hashes-the-key-as-given: str(callee_val) == key.x
+//@ at call (*hamt._UnixFSHAMTShard).lookup#1 assert walks-with-this-key-from-the-first-hash-bit: callee_key == key.x && callee_hv.consumed == 0
